@@ -96,19 +96,34 @@ def o_roundtrip(inp):
     return (None, nontrivial, cls)
 
 
+def _balanced(t):
+    d = 0
+    for i, c in enumerate(t):
+        if i and t[i - 1] == "\\":
+            continue
+        if c == "{":
+            d += 1
+        elif c == "}":
+            d -= 1
+            if d < 0:
+                return False
+    return d == 0
+
+
 def kf_many_dollars(sub, inp, fail):
     """F-11b: under keep_math the encoder keeps everything from the first to the last unescaped dollar verbatim.
-    Shapes: >= 3 unescaped dollars (text between two math spans, '$$'), or a '%' between two dollars
-    (e.g. two prices: 'costs $5 (50% off) or $6')."""
+    That span is not something the decoder reads back unchanged when there are >= 3 unescaped dollars (text
+    between two math spans, '$$'), or when the text between two dollars contains a '%' or unbalanced braces
+    (two prices: 'costs $5 (50% off) or $6'; '${$')."""
     if sub != "roundtrip" or not fail[0].startswith("roundtrip:") or inp["opts"] == "no-math":
         return False
     t = inp["text"]
-    n = unescaped_dollars(t)
-    if n >= 3:
+    pos = [m.start() for m in re.finditer(r"(?<!\\)\$", t)]
+    if len(pos) >= 3:
         return True
-    if n == 2:
-        pos = [m.start() for m in re.finditer(r"(?<!\\)\$", t)]
-        return "%" in t[pos[0]:pos[1]]
+    if len(pos) == 2:
+        span = t[pos[0] + 1 : pos[1]]
+        return "%" in span or not _balanced(span)
     return False
 
 
